@@ -31,6 +31,12 @@ pub enum Error {
 }
 pub type Result<T> = core::result::Result<T, Error>;
 
+impl Error {
+    // assumed: ENV Error::should_reconnect (mod.rs: a pure classification of the variant); its value is irrelevant to the contracts here
+    #[verifier::external_body]
+    pub fn should_reconnect(&self) -> (r: bool) { unimplemented!() }
+}
+
 impl IoError {
     // assumed: A-OS (io::Error::from_raw_os_error carries the errno)
     #[verifier::external_body]
